@@ -266,7 +266,46 @@ def execute_group(spec, which):
     return case, impls, None
 
 
+def _reduce_cells(spec):
+    """built-in aggregates over a column whose cells are containers (tuples: version numbers, coordinates): a cell is ONE value of
+    its group, also when the group has a single row — judged here against plain Python (the Lean model speaks about numbers)"""
+    import warnings
+    from serif import Table
+    keys = spec["ckeys"]
+    cells = [None if c is None else tuple(c) for c in spec["cells"]]
+    order = []
+    for k in keys:
+        if k not in order:
+            order.append(k)
+    groups = {k: [c for kk, c in zip(keys, cells) if kk == k and c is not None] for k in order}
+    want = {"count": [len(groups[k]) for k in order], "min": [min(groups[k]) if groups[k] else None for k in order],
+            "max": [max(groups[k]) if groups[k] else None for k in order]}
+    bad = []
+    with warnings.catch_warnings():
+        warnings.simplefilter("ignore")
+        t = Table({"k": list(keys), "c": list(cells)})
+        for meth in ("aggregate", "window"):
+            for f in ("count", "min", "max"):
+                try:
+                    r = getattr(t, meth)(over="k", **{KW[f]: "c"})
+                    got = list(r.cols()[-1])
+                except Exception as e:
+                    bad.append(f"{meth}({f}_over) raised {type(e).__name__}")
+                    continue
+                exp = want[f] if meth == "aggregate" else [want[f][order.index(k)] for k in keys]
+                if got != exp:
+                    bad.append(f"{meth}({f}_over) on cells {cells} with keys {keys}: {got}, expected {exp}")
+    w = {"fam": "reduce", "case": {"vals": [], "key": None}, "impl": {}}
+    if bad:
+        w["py_fail"] = "; ".join(bad[:3])
+    else:
+        w["skip"] = "consistent (judged in Python)"
+    return w
+
+
 def execute(spec):
+    if spec["fam"] == "reduce" and "cells" in spec:
+        return _reduce_cells(spec)
     if spec["fam"] == "reduce":
         return _reduce(spec)
     case, impls, skip = execute_group(spec, ("agg",))
@@ -508,6 +547,12 @@ def generate(rng, tier):
     for _ in range(300 if tier == "quick" else 6000):
         pool = rng.choice(VALPOOLS)
         yield {"fam": "reduce", "vals": [rng.choice(pool) for _ in range(rng.randint(1, 40))], "key": rng.choice([0, None, "a"])}
+    # container-valued cells: groups of one row, of several rows, of None only
+    cellpool = [[1, 2], [3], [], [0, None], None, [2, 1, 0]]
+    for n in (1, 2, 3):
+        for ks in itertools.product([0, 1], repeat=n):
+            for cs in itertools.product(range(len(cellpool)), repeat=n):
+                yield {"fam": "reduce", "ckeys": list(ks), "cells": [cellpool[c] for c in cs]}
     # float columns: whole-column reduction against the single-group aggregate / window, to the last bit
     for _ in range(3000 if tier == "quick" else 60000):
         n = rng.randint(2, 6)
